@@ -26,6 +26,7 @@ import re
 
 from . import common
 from . import c08_kit as kit
+from . import c08_tie
 from .common import blit, lst, natlit, strlit, zlit
 
 HEADER = """From Coq Require Import String List ZArith Bool Arith.
@@ -799,6 +800,25 @@ def run(ctx) -> int:
             ctx.broken.append(f"correspondence lemma shard_ok in {name}")
 
     common.log(f"[C08] oracles + shards: {time.time() - t2:.1f}s")
+    # second tie between model and code: the source of chain.py (ListChain, ListEpochChain, EpochChainManager) is
+    # translated to Gallina now and proved equal to the model (c08_tie.py).  A broken source tie alone is no alarm
+    # (a refactoring may leave the translated subset); it is named beside a behavioural disagreement.
+    t3 = time.time()
+    if built:
+        try:
+            tie = c08_tie.run(ctx, common.REPO)
+        except Exception as ex:      # optional evidence: never turns into an alarm by itself
+            tie = {"translated": [], "lemmas_ok": False, "lemmas": [], "not_tied": {"all": f"{type(ex).__name__}: {ex}"},
+                   "detail": "SOURCE TIE BROKEN: the tie step aborted; the verdict rests on the behavioural correspondence"}
+        for sec in sorted(tie["not_tied"]):
+            ctx.hist("T.source_tie_broken." + sec)
+        ctx.hist("T.source_tie_lemmas", len(tie["lemmas"]))
+        if not tie["lemmas_ok"] and (disagree or any(f[2] is None for f in fails)):   # known findings are no disagreement
+            ctx.broken.append("source tie (py2gallina_c08): " + "; ".join(f"{k}: {v}" for k, v in sorted(tie["not_tied"].items()))[:600])
+    else:
+        tie = {"translated": [], "lemmas_ok": False, "detail": "not attempted: the Coq build failed"}
+    ctx.cov["source_tie"] = tie
+    common.log(f"[C08] source tie: {time.time() - t3:.1f}s, lemmas_ok={tie['lemmas_ok']}")
     na, nb = len(a_cases), len(b_cases)
     distinct = len({json.dumps(c["script"], sort_keys=True) for c in a_cases}) + \
         len({json.dumps(c["cfg"], sort_keys=True) for c in b_cases})
@@ -822,6 +842,11 @@ def run(ctx) -> int:
         "payload shape of stored arrays equals the shape in the model state (tested; the model stores flattened payloads)"]
     ctx.extra_tb = ["harness stamp kernels / generators (harness/lv/c08_kit.py) and their Gallina counterparts (Goose/CorrC08.v: stamp_kernel, stamp_gen, c_pre, c_post)",
                     "DictInterface.extract_position / update_state are modelled as dictionary lookup / update",
+                    "source tie: tools/py2gallina_c08.py (Python ast -> Gallina for ListChain, ListEpochChain and EpochChainManager of "
+                    "chain.py; fails closed outside its subset), its library-call table (np.arange, %, ==, boolean-mask indexing, "
+                    "tree_leaves(..)[0].shape[1], slice_leaves, concatenate_leaves, Option) with the semantics given in coq/Goose/GenC08Tie.v, "
+                    "the view of a chunk as the list of its time slices, Python ints as unbounded Z; result of this run in coverage.source_tie "
+                    "(advisory: the verdict rests on the behavioural correspondence)",
                     "the kernel lifecycle calls between sampling loops (start_epoch, end_epoch, tune, end_warmup) enter the C08 model as arbitrary hook functions that return kernel states only (their exact sequence is C07's subject)"]
 
     seen, per_part = set(), {}
